@@ -12,8 +12,8 @@ import sys
 
 INF = 255
 NSLOT = 4
-F1, G1, F2, V1, R1, CR1, SV1, CF1 = range(8)
-MK = dict(ANY=0, EQ=1, LT=2, VAL=3, NE=4, GE=5)
+F1, G1, F2, V1, R1, CR1, SV1, CF1, Z0 = range(9)
+MK = dict(ANY=0, EQ=1, LT=2, VAL=3, NE=4, GE=5, ANYM=6)
 TF = dict(RT=0, DEFAULT=1, N=2, LH=3, ATLEAST=4, ATMOST=5, ALLOW=6, FORBID=7, RT1=8)
 ACT = dict(RET=0, THROW_INT=1, THROW_STD=2, NONE=3, RETREF=4, RETCAP=5, RETSTR=6)
 MOCK = dict(M=0, MV=1, W=2)
@@ -25,7 +25,7 @@ F_KIND, F_HANDLER, F_REPCOUNT, F_REPCULPRIT, F_REPDETAIL, F_OKREP, F_TRACE, F_CL
 F_REPORTS = F_REPCOUNT | F_REPCULPRIT | F_REPDETAIL
 F_ALL = (1 << 11) - 1
 
-FN_NAME = {F1: 'f', F2: 'f', G1: 'g', V1: 'v', R1: 'r', CR1: 'cr', SV1: 'sv', CF1: 'f'}
+FN_NAME = {F1: 'f', F2: 'f', G1: 'g', V1: 'v', R1: 'r', CR1: 'cr', SV1: 'sv', CF1: 'f', Z0: 'z'}
 
 
 class Gen:
@@ -68,7 +68,7 @@ class Gen:
     # ---- C++ emission ----
     def matcher_expr(self, mk, operand):
         return {0: 'trompeloeil::_', 1: 'trompeloeil::eq(int(%s))' % operand, 2: 'trompeloeil::lt(int(%s))' % operand, 3: 'int(%s)' % operand,
-                4: 'trompeloeil::ne(int(%s))' % operand, 5: 'trompeloeil::ge(int(%s))' % operand}[mk]
+                4: 'trompeloeil::ne(int(%s))' % operand, 5: 'trompeloeil::ge(int(%s))' % operand, 6: 'ANY(int)'}[mk]
 
     def site_source(self, si, slot):
         mock, fn, mk1, mk2, nwith, nse, seqar, tform, tl, th, act, clauses = self.shapes[si]
@@ -83,6 +83,8 @@ class Gen:
         args = self.matcher_expr(mk1, 'op.k1')
         if fn == F2:
             args += ', ' + self.matcher_expr(mk2, 'op.k2')
+        if fn == Z0:
+            args = ''
         callexpr = '%s(%s)' % (FN_NAME[fn], args)
         var = 'm_s%d' % K
         macro = {TF['ALLOW']: 'NAMED_ALLOW_CALL', TF['FORBID']: 'NAMED_FORBID_CALL'}.get(tform, 'NAMED_REQUIRE_CALL')
@@ -662,10 +664,13 @@ def plans_C16(g, tier):
         A.append(g.create(slot, g.shape(fn=F1, mk1='EQ', tform='FORBID'), obj=0, k1=2))
         A.append(g.create(slot, g.shape(fn=F1, mk1='ANY', tform='RT', seqar=1), obj=0, lo=1, hi=1, s1=0))
         A.append(g.create(slot, g.shape(fn=G1, mk1='ANY', tform='ALLOW'), obj=0))
+        A.append(g.create(slot, g.shape(fn=F1, mk1='ANYM', tform='ALLOW'), obj=0))                                           # NAMED_ALLOW_CALL(m, f(ANY(int))): a macro inside the text
+        A.append(g.create(slot, g.shape(fn=F1, mk1='EQ', tform='RT'), obj=0, k1=1, lo=2, hi=3))                               # accepted calls below the lower bound are reported OK too
+        A.append(g.create(slot, g.shape(fn=Z0, mk1='ANY', tform='ALLOW'), obj=0))                                             # a function without parameters
         A.append(g.create(slot, g.shape(fn=F1, mk1='EQ', tform='RT', nse=1), obj=0, k1=1, lo=1, hi=2, semode=(1, 0, 0)))   # side effect throws: the call is still accepted
         A.append(g.create(slot, g.shape(fn=F1, mk1='EQ', tform='ALLOW', nse=1), obj=0, k1=0, semode=(2, 0, 0)))             # side effect calls g(): OK reports in acceptance order
         A.append(g.release(slot))
-    A += [g.call(0, F1, a) for a in (0, 1, 2)] + [g.call(0, G1, 1), g.call(0, F1, 2, in_catch=True), g.call(0, F1, 1, in_catch=True)]
+    A += [g.call(0, F1, a) for a in (0, 1, 2)] + [g.call(0, G1, 1), g.call(0, Z0, 0), g.call(0, F1, 2, in_catch=True), g.call(0, F1, 1, in_catch=True)]
     A += [g.op(OP_SET_REPORTER, k1=1, k2=1), g.op(OP_SET_REPORTER, k1=2, k2=0), g.op(OP_SET_REPORTER, k1=0, k2=1), g.op(OP_ARM_OK, k1=2)]
     if tier == 'quick':
         return [dict(name='ok3', mask=M_C16, du=2, dm=6, alphabet=A)]
@@ -692,8 +697,12 @@ def plans_C17(g, tier):
                 g.create(1, g.shape(fn=V1, mk1='EQ', tform='ALLOW', nse=1), obj=0, k1=1, semode=(1, 0, 0)),                       # void function whose side effect throws
                 g.create(2, g.shape(fn=F1, mk1='EQ', tform='ALLOW', nse=2), obj=0, k1=1, semode=(0, 1, 0)),                       # second side effect throws
                 g.create(3, g.shape(fn=F1, mk1='EQ', tform='ALLOW', nse=1), obj=0, k1=2, semode=(4, 0, 0))])                      # side effect constructs a tracer that outlives the call
+    pre.append([g.create(0, g.shape(fn=Z0, mk1='ANY', tform='ALLOW'), obj=0),                                                   # no parameters: the record is the text and the result
+                g.create(1, g.shape(fn=F1, mk1='ANYM', tform='ALLOW'), obj=0),                                                    # NAMED_ALLOW_CALL(m, f(ANY(int))): the text as written
+                g.create(2, g.shape(fn=Z0, mk1='ANY', tform='RT', act='THROW_STD'), obj=0, lo=1, hi=1),
+                g.create(3, g.shape(fn=F1, mk1='ANYM', tform='RT'), obj=0, lo=1, hi=1)])   # (the variadic _V forms are documented to stringize after macro expansion: not combined with ANY(int))
     A = [g.op(OP_PUSH_TRACER, k1=0), g.op(OP_PUSH_TRACER, k1=1), g.op(OP_POP_TRACER)]
-    A += [g.call(0, F1, a) for a in (0, 1, 2)] + [g.call(0, G1, 1), g.call(0, V1, 1), g.call(0, F2, 1, 2), g.call(0, R1, 1), g.call(0, SV1, 1), g.release(3)]
+    A += [g.call(0, F1, a) for a in (0, 1, 2)] + [g.call(0, G1, 1), g.call(0, V1, 1), g.call(0, F2, 1, 2), g.call(0, R1, 1), g.call(0, SV1, 1), g.call(0, Z0, 0), g.release(3)]
     return [dict(name='trace', mask=M_C17, du=3 if tier == 'quick' else 4, dm=7 if tier == 'quick' else 10, alphabet=A, prefixes=pre)]
 
 
